@@ -195,7 +195,7 @@ EXTRA_TEXT = {
     'C06': ' Document level: C13D.C06_cell_projection, C06D.C06_spine_types_of_text (the spine-type query as a function of the text).',
     'C07': ' Document level (C07Doc, C07Text): C07_measure_index - for every parser and text the measure index is the list of stages holding a barline token (first: a CORE token); '
            'C07_range_of_text - the body of every valid range export is the text specification of the rows over the stage interval the measure index assigns to a..b.',
-    'C08': ' C08Prefix: C08_excerpt_from_start - an excerpt that starts at the beginning of the score is the full export cut after its end stage plus the synthetic terminator.',
+    'C08': ' C08Prefix: C08_excerpt_from_start - an excerpt that starts at the beginning of the score is the full export cut after its end stage plus the synthetic terminator. C08Range: C08_preamble_flat / C08_excerpt_flat / C08_excerpt_spec - for a later excerpt (from_measure >= 1) above whose first line no spine path is split, joined, added or ended and below which no signature of a class in force is declared again, the recovered preamble is exactly the header line followed by the signatures in force on every spine path (the entries of last_signature_nodes, by C10_sigs_recurrence the nearest signatures above), the body is the lines of the measures, then the terminator; the executable specification KernModel/Spec/Excerpt.lean is compared with the real export on every explored excerpt in that core (counted as lean_excerpt_spec in the evidence).',
     'C15': ' Document level (C15Doc): C15_same_skeleton, C15_export - the transposed document has the skeleton of the source and its default export is the text specification over the source '
            'skeleton and the transposed tokens.',
     'C10': ' Document level (C10Doc, C10Text): C10_sigs_recurrence (every node\'s signature table is its parent\'s, updated with itself when it is a signature), C10_clef_in_force, '
